@@ -24,7 +24,42 @@ def _c28_classes(i, o):
     return cls
 
 
+def _c26_classes(i, o):
+    cls = ['rounds=%d' % len(i[3]), 'size=%d' % i[2]]
+    if isinstance(o, list):
+        for r in o:
+            if not (isinstance(r, list) and len(r) == 6):
+                continue
+            cls.append('round_ok=%d' % r[1] if r[0] else 'round_idle')
+            for e in r[2]:
+                if e[0] == 1:
+                    cls.append('report=%d' % e[2])
+            for e in r[3]:
+                if e[0] == 0:
+                    cls.append('exec_ok=%d' % e[5])
+            if r[4]:
+                cls.append('cache_nonempty_after')
+    return cls
+
+
 PROPS = {
+    'C26': dict(
+        id='C26', cluster='Sync', crate='h-pure', tag=26,
+        n={'quick': 1200, 'thorough': 60000},
+        theorems=['import_round_ok', 'import_history_ok', 'missing_headers_reported', 'invalid_header_reported',
+                  'bad_transactions_reported'],
+        classify=_c26_classes,
+        rule='random histories of 1..3 (thorough 5) import rounds of the real Import over scripted peers: per possible request start a '
+             'headers answer (peer, ok/error/none, 0..size+1 headers with wrong heights, invalid or erroring consensus flags, '
+             'execution-failure flags) and a transactions answer (ok/error/none, matching, mismatching, short), batch sizes 1..4, ranges '
+             'of 2..10 heights, observed/committed-height events between rounds; three fault levels (clean, occasional, heavy). '
+             'Observed per round: processing range, success flag, fetch-side log (requests, reports, DA awaits), execution-side log '
+             '(every execute_and_commit with header variant, flags, transaction variant, result; success reports), cache dump, status. '
+             'non-trivial = distinct history with a non-empty observation',
+        assumptions=['schedule: current-thread runtime, block_stream_buffer_size 1, the mock executor yields until the fetch side blocks '
+                     '(two batches ahead); other schedules change only how far the fetch side prefetches',
+                     'processing range ends below u32::MAX (see K-C27-u32max)', 'no shutdown signal during a round'],
+    ),
     'C27': dict(
         id='C27', cluster='Sync', crate='h-pure', tag=27,
         n={'quick': 1500, 'thorough': 40000},
